@@ -20,7 +20,7 @@ type c08ex struct {
 	base
 	a, b   *world.Chan
 	direct bool
-	mode   string // d: direct plain (VT), g: direct grouped (VT_G1), r: reverse plain (CC), h: reverse grouped (CC_G1)
+	mode   string            // d: direct plain (VT), g: direct grouped (VT_G1), r: reverse plain (CC), h: reverse grouped (CC_G1)
 	ids    map[string]string // sym -> swap id (hex)
 	begun  map[string]bool
 	to     string // the destination as the owner spells it ("CC", or "cc": channel names are matched in upper case)
